@@ -120,6 +120,14 @@ def run_pair(c):
     # containment
     if a.is_inside(b) != X.inside(ea, eb) or b.is_inside(a) != X.inside(eb, ea):
         raise Violation("is_inside: a=%s b=%s gives %r/%r" % (ea, eb, a.is_inside(b), b.is_inside(a)), "is_inside")
+    # containment is plain coordinate comparison - the distance tolerance belongs to touches() only: a copy of a pushed out of a
+    # by half the tolerance (and by twice the tolerance) is no longer inside it, a copy left in place is
+    for shift, exp in ((0.0, True), (eps / 2, False), (2 * eps, False)):
+        a2 = a.duplicate()
+        a2.center = Point(a.center.x + shift, a.center.y)
+        if a2.is_inside(a) != exp:
+            raise Violation("is_inside: a copy of %s shifted by %r (tolerance %r) is reported %s inside it" % (
+                ea, shift, eps, "" if a2.is_inside(a) else "not"), "is_inside-tolerance")
     # bounding box
     bb = a.bounding_box
     if (Fr(bb.ll.x), Fr(bb.ll.y), Fr(bb.ur.x), Fr(bb.ur.y)) != ea:
